@@ -387,6 +387,29 @@ func stringParts(p *core.Prog, e *core.Expr) ([]strPart, bool) {
 			}
 			add(strPart{Val: x, Verb: "d"})
 			return true
+		case e.Op == "call" && (e.Name == "(*strings.Builder).String" || e.Name == "(*bytes.Buffer).String"):
+			// a string assembled piece by piece, in straight-line code
+			c, ok := e.Val.(*ssa.Call)
+			if !ok {
+				return false
+			}
+			ws, ok := builderWrites(p, c)
+			if !ok {
+				return false
+			}
+			for _, w := range ws {
+				if w.loop != nil || !(w.instr.Block() == c.Block() || w.instr.Block().Dominates(c.Block())) {
+					return false
+				}
+				if w.part.Val != nil {
+					if !flat(w.part.Val) {
+						return false
+					}
+				} else {
+					add(w.part)
+				}
+			}
+			return true
 		case e.Op == "call" && e.Name == "fmt.Sprintf":
 			c, ok := e.Val.(*ssa.Call)
 			if !ok || len(e.Args) < 1 || e.Args[0].Op != "const" {
@@ -434,6 +457,80 @@ func stringParts(p *core.Prog, e *core.Expr) ([]strPart, bool) {
 	return out, true
 }
 
+// A bWrite is one piece written into a local strings.Builder / bytes.Buffer.
+type bWrite struct {
+	part  strPart
+	loop  *ssa.BasicBlock // innermost loop header of the write (nil: none)
+	instr ssa.Instruction
+}
+
+// builderWrites lists, in control-flow order, what is written into the local
+// builder whose String method str calls; ok is false when the builder is not
+// a local variable used only through its Write*/String/Len/Grow methods.
+func builderWrites(p *core.Prog, str *ssa.Call) ([]bWrite, bool) {
+	if len(str.Call.Args) != 1 {
+		return nil, false
+	}
+	al, ok := str.Call.Args[0].(*ssa.Alloc)
+	if !ok {
+		return nil, false
+	}
+	fn := str.Parent()
+	// loops are counted from the builder's own scope: one that also contains
+	// its declaration is the surrounding code
+	loops := core.Loops(fn)
+	loopOf := func(b *ssa.BasicBlock) *ssa.BasicBlock {
+		h := innermostLoop(fn, b)
+		if h != nil && loops[h][al.Block()] {
+			return nil
+		}
+		return h
+	}
+	var out []bWrite
+	for _, ref := range *al.Referrers() {
+		c, ok := ref.(*ssa.Call)
+		if !ok {
+			if _, isDbg := ref.(*ssa.DebugRef); isDbg {
+				continue
+			}
+			return nil, false
+		}
+		x := p.X(c)
+		if len(c.Call.Args) == 0 || c.Call.Args[0] != ssa.Value(al) {
+			return nil, false
+		}
+		name := lastDot(x.Name)
+		switch name {
+		case "String", "Len", "Grow", "Cap":
+			continue
+		case "WriteString":
+			w := bWrite{loop: loopOf(c.Block()), instr: c}
+			a := x.Args[1]
+			if a.Op == "const" && strings.HasPrefix(a.Name, `"`) {
+				u, err := strconv.Unquote(a.Name)
+				if err != nil {
+					return nil, false
+				}
+				w.part = strPart{Lit: u}
+			} else {
+				w.part = strPart{Val: a, Verb: "s"}
+			}
+			out = append(out, w)
+		case "WriteByte", "WriteRune":
+			a := x.Args[1]
+			k, isC := a.ConstInt()
+			if !isC || k < 0 || k > 127 {
+				return nil, false
+			}
+			out = append(out, bWrite{part: strPart{Lit: string(rune(k))}, loop: loopOf(c.Block()), instr: c})
+		default:
+			return nil, false
+		}
+	}
+	sort.SliceStable(out, func(i, j int) bool { return ord(out[i].instr) < ord(out[j].instr) })
+	return out, true
+}
+
 // disjuncts: the boolean v is a φ-encoded `a || b || ...` (want true) or
 // `a && b && ...` (want false) computed before it is tested, possibly carried
 // round a loop: returns the facts any one of which gives v the wanted value
@@ -478,6 +575,72 @@ func disjunctsRec(p *core.Prog, v ssa.Value, want bool, seen map[ssa.Value]bool)
 			continue
 		}
 		out = append(out, p.FactOf(core.Guard{Cond: e, Pol: want}))
+	}
+	return out
+}
+
+// feasibleEdges: the incoming edges of φ ph that a nil test of a sibling φ
+// (one of the same block), known to hold at block at, does not rule out. It is
+// the shape of `x, err = f(); ... if err != nil { return }; use(x)` when x and
+// err were assigned on several ways: the ways that left err non-nil do not
+// reach the use.
+func feasibleEdges(p *core.Prog, ph *ssa.Phi, at *ssa.BasicBlock) []int {
+	type nilTest struct {
+		sib   *ssa.Phi
+		isNil bool
+	}
+	var tests []nilTest
+	for _, g := range core.Guards(at) {
+		bo, ok := g.Cond.(*ssa.BinOp)
+		if !ok || bo.Op != token.EQL && bo.Op != token.NEQ {
+			continue
+		}
+		x, y := bo.X, bo.Y
+		if isNilConst(x) {
+			x, y = y, x
+		}
+		sib, ok := x.(*ssa.Phi)
+		if !ok || sib.Block() != ph.Block() || !isNilConst(y) {
+			continue
+		}
+		// the test must come after the merge (not be one of the conditions that led to it)
+		if g.If == nil || !(ph.Block() == g.If.Block() || ph.Block().Dominates(g.If.Block())) {
+			continue
+		}
+		tests = append(tests, nilTest{sib, (bo.Op == token.EQL) == g.Pol})
+	}
+	var out []int
+	for i := range ph.Edges {
+		pred := ph.Block().Preds[i]
+		ok := true
+		for _, t := range tests {
+			e := t.sib.Edges[i]
+			known, isNil := false, false
+			switch {
+			case isNilConst(e):
+				known, isNil = true, true
+			default:
+				for _, g := range core.EdgeGuards(pred, ph.Block()) {
+					bo, isB := g.Cond.(*ssa.BinOp)
+					if !isB || bo.Op != token.EQL && bo.Op != token.NEQ {
+						continue
+					}
+					x, y := bo.X, bo.Y
+					if isNilConst(x) {
+						x, y = y, x
+					}
+					if x == e && isNilConst(y) {
+						known, isNil = true, (bo.Op == token.EQL) == g.Pol
+					}
+				}
+			}
+			if known && isNil != t.isNil {
+				ok = false
+			}
+		}
+		if ok {
+			out = append(out, i)
+		}
 	}
 	return out
 }
